@@ -38,6 +38,8 @@ function rec(n, loc, i) {
 	if (mode == "spinfunc") { while (1) { loc[i % 3] = i++ } }
 	return 0
 }
+function cntlocal(la, k3, c3) { for (k3 in la) c3++; la["x"] = 1; la["y"] = 2; return c3 + 0 }
+function exitfunc(la, lb) { la[1] = 1; la[2] = 2; lb["q"] = 3; if (mode == "exitfunc") exit 3; return 1 / (mode == "errfunc2" ? 0 : 1) }
 function dumpvars(tag, k2) {
 	printf "%s spec.FS [%s]\n", tag, FS
 	printf "%s spec.OFS [%s]\n", tag, OFS
@@ -72,6 +74,7 @@ BEGIN {
 	if (mode == "ropen") { r1 = (getline l1 < "f1"); r2 = (getline < "f2"); r5 = (getline l5 < "-"); r4 = (getline) }
 	if (mode == "sys") { x = system("true") }
 	if (mode == "srandonly") { sr = srand(7) }
+	if (mode == "exitfunc" || mode == "errfunc2") { x = exitfunc() }
 	if (mode == "srandrand") { sr = srand(7); r = rand(); sr = srand(11) }
 	if (mode == "cmdopen") { print "to-cat" | "cat"; r1 = ("emit a b" | getline l1); x = system("emit s0"); print "again" | "cat" }
 	if (mode == "setmodes") { INPUTMODE = "csv header"; OUTPUTMODE = "tsv" }
@@ -90,6 +93,7 @@ BEGIN {
 		print "B print", "o", "p,q"
 		s = 0; for (j = 0; j < 300; j++) s += j; printf "B loop %s\n", s
 		printf "B length %s\n", length("h\303\251")
+		printf "B locarr %s %s\n", cntlocal(), cntlocal()
 		printf "B fmtc [%s]\n", sprintf("%c%c", "\303\251x", 233)
 		printf "B dynre %s %s\n", ("abc" ~ ("^" "a")), ("h\303\251" ~ ("^h." "$"))
 		if (cmd) {
@@ -218,8 +222,10 @@ func c14Alphabet(thorough bool) []c14Op {
 		cx("plain", 1, c14Cfg{Stdin: "a b\nc d e\n", Vars: c14v("plain")}),
 		cx("plain", 0, c14Cfg{Stdin: "a b\nc d e\n", Vars: c14v("plain")}), // completes under a context that is cancelled afterwards
 		ex("cmdopen", c14Cfg{Stdin: "a\n", Vars: c14v("cmdopen")}),
-		ex("srandonly", c14Cfg{Stdin: "", Vars: c14v("srandonly")}), // seeds, never draws
-		ex("srandrand", c14Cfg{Stdin: "", Vars: c14v("srandrand")}), // seeds, draws, seeds again
+		ex("exitfunc", c14Cfg{Stdin: "a\n", Vars: c14v("exitfunc")}), // exit inside a function that has filled local arrays
+		ex("errfunc2", c14Cfg{Stdin: "a\n", Vars: c14v("errfunc2")}), // run-time error there
+		ex("srandonly", c14Cfg{Stdin: "", Vars: c14v("srandonly")}),  // seeds, never draws
+		ex("srandrand", c14Cfg{Stdin: "", Vars: c14v("srandrand")}),  // seeds, draws, seeds again
 		cx("cmdopen", 0, c14Cfg{Stdin: "a\n", Vars: c14v("cmdopen")}),
 		ex("wopen", c14Cfg{Stdin: "a\n", Vars: c14v("wopen")}),
 		ex("ropen", c14Cfg{Stdin: "s1 s2\ns3\n", Vars: c14v("ropen")}),
@@ -665,7 +671,7 @@ func init() {
 	core.Register(&core.Check{
 		ID:    "C14",
 		Level: "model_checking",
-		Rule: "explicit-state search over the real Interpreter: state = history of operations on one interp.Interpreter, operation = Execute/ExecuteContext with one of ~33 configurations of one program (plain, FS/RS/ORS/SUBSEP via Vars, CSV/TSV header by Config/Vars/BEGIN, Args, error in function/loop/for-in/rule, exit 3 in BEGIN/rule/END and error in a rule while a range pattern is open, context cancelled at VM step k, file and command streams left open, completed run whose context is cancelled afterwards, sandbox flags, Chars, CRLF, rejected configurations) or ResetVars/ResetRand; " +
+		Rule: "explicit-state search over the real Interpreter: state = history of operations on one interp.Interpreter, operation = Execute/ExecuteContext with one of ~33 configurations of one program (plain, FS/RS/ORS/SUBSEP via Vars, CSV/TSV header by Config/Vars/BEGIN, Args, error in function (also with filled local arrays)/loop/for-in/rule, exit 3 in BEGIN/rule/END and error in a rule while a range pattern is open, context cancelled at VM step k, file and command streams left open, completed run whose context is cancelled afterwards, sandbox flags, Chars, CRLF, rejected configurations) or ResetVars/ResetRand; " +
 			"successor = replay of the history on a fresh Interpreter + one more operation (transitions); states de-duplicated by VerifDump() (states = distinct dumps), BFS to depth 2 (quick) / 3 (thorough); in every state 9 probe configurations x 2 oracles are run on the reused interpreter and compared with ExecProgram on a new one; distinct = distinct state dumps and probe observations",
 		Assumptions: []string{
 			"oracle 2 (no ResetVars) pins FS OFS ORS RS SUBSEP CONVFMT OFMT through Config.Vars on both sides and the probe then reads no global, array, RT, RSTART/RLENGTH, ARGV, ENVIRON or FIELDS: these are 'variables and arrays' that may carry over",
